@@ -17,8 +17,8 @@ sys.path.insert(0, os.path.join(os.path.dirname(os.path.abspath(__file__)), '..'
 import ring_spec as S                      # noqa: E402
 from carbon.hashing import ConsistentHashRing, fnv32a, carbonHash   # noqa: E402
 
-NODES = [('10.0.0.1', 'a'), ('10.0.0.1', 'b'), ('10.0.0.2', 'a'), ('10.0.0.3', 'c'), ('10.0.0.2', 'b'),
-         ('10.0.0.4', None), ('10.0.0.5', 'e'), ('10.0.0.6', 'f')]
+NODES = [('10.0.0.1', 'a'), ('10.0.0.4', None), ('10.0.0.1', 'b'), ('10.0.0.2', 'a'), ('10.0.0.3', 'c'), ('10.0.0.2', 'b'),
+         ('10.0.0.5', 'e'), ('10.0.0.6', None)]       # (destinations given as plain host:port have instance None)
 KEYS = ['a.b.c', 'x', 'servers.web01.cpu', 'servers.web02.cpu', 'm7', 'hello.world', 'foo.bar.baz', 'q', 'é.ü']
 
 
@@ -206,4 +206,9 @@ def main():
 
 
 if __name__ == '__main__':
-  main()
+  import os as _os
+  sys_path_dir = _os.path.dirname(_os.path.abspath(__file__))
+  import sys as _sys
+  _sys.path.insert(0, sys_path_dir)
+  from _guard import run_guarded
+  run_guarded(main, _os.path.basename(__file__))
